@@ -1105,6 +1105,12 @@ func (x *prioExec) epilogue() {
 	deadline := time.Now().Add(prioL)
 	for !x.errClosed && time.Now().Before(deadline) {
 		x.startRelease(x.pickRelease(POp{Mode: "all"}))
+		if x.termSeen {
+			// Output() is already closed: only Err() is left to wait for (virtual time must pass)
+			time.Sleep(100 * time.Nanosecond)
+			x.pollErr()
+			continue
+		}
 		x.await(min(time.Until(deadline), 2*time.Microsecond), func() bool { return x.errClosed || len(x.held) > 0 })
 	}
 	if !x.errClosed {
